@@ -457,6 +457,15 @@ func keepalive(transport Transport, interval time.Duration, quit <-chan struct{}
 	for {
 		select {
 		case <-ticker.C:
+			// When the session ends at the very moment of a tick both cases are ready and select may
+			// pick this one: a keepalive must not touch the transport of a session that is over (the
+			// transport may already carry the next connection).
+			select {
+			case <-quit:
+				ticker.Stop()
+				return
+			default:
+			}
 			if err := transport.Ping(); err != nil {
 				// When keepalive fails, we force close the transport. In all cases, the recv will also fail.
 				ticker.Stop()
